@@ -9,7 +9,7 @@ from mc import domains as D
 from mc.rec import Rec, unhex
 
 PROPERTY = "C20"
-LEVEL = "exploration"
+LEVEL = "model_checking"  # bounded-exhaustive enumeration of executions against a reference model (DESIGN.md 1, 2.1)
 EXHAUSTIVE = True
 RULE = (
     "a case is one of: a (width, value) field [construct, octet/int/len/hex views, rebuilt through every constructor and "
